@@ -14,6 +14,22 @@ def sig_mb(vec, probs):
             "default_tol": "tolerance=default" in probs[0]}
 
 
+def run_workflow(out, prop, tier):
+    """the how-to system as one specification (spec/Workflow.tla): formal parameters through the real compute()"""
+    from . import replay_workflow
+    models = [Model("MC_Workflow.tla", {"LenR": r, "LenT": t, "Emit": True}, invariants=["Prop_Workflow", "EmitInv"], workers=2,
+                    label=f"MC_Workflow/r{r}/t{t}") for r, t in ([(2, 1)] if tier == "quick" else [(2, 1), (3, 1), (2, 2)])]
+    vectors = []
+    for m, res in core.run_models(models, seed=out.seed, parallel=3):
+        out.add_tlc(m, res)
+        vectors += res.vectors
+    bad = core.replay_parallel(replay_workflow.run_vector, vectors)
+    out.replayed += len(vectors)
+    out.extra["workflow_vectors"] = len(vectors)
+    out.samples.append(core.sample_of({"workflow": {"orders": vectors[0]["orders"], "balance_of_process_a": vectors[0]["balA"]["val"][:1]}}, 900))
+    out.judge(core.for_property(bad, prop), "workflow", lambda v, p: {"engine": "workflow", "orders": str(v["orders"])})
+
+
 def check_C02(tier, seed):
     out = Outcome("C02", tier, seed)
     maxflows = 2 if tier == "quick" else 5
@@ -35,8 +51,12 @@ def check_C02(tier, seed):
     for v in vectors:
         k = f"{v['pert']['obj']}:{v['pert']['op']}:{v['pert']['val']}"
         kinds[k] = kinds.get(k, 0) + 1
+    run_workflow(out, "C02", tier)
     out.exhaustive = True
     out.assumptions += [
+        "workflow engine: the library's own how-to system (spec/Workflow.tla) with FORMAL parameters: TLC proves the balance of process_a "
+        "equals extraction x (1 - sum of product shares) as a polynomial identity for every storage order of the four flows; the real "
+        "compute() is run on the same formal parameters, and numerically check_mass_balance must pass iff the shares add up to one",
         "system graphs: every non-empty subset (quick: up to 2, thorough: all 5) of the templates sysenv->A, A->B, B->sysenv, parallel A->B, opposing "
         "B->A; five dimension schemes (equal dims, permuted orders with equal lengths, differing dimensionality, no time dimension, "
         "zero-dimensional flows); stocks at A / at B / without process, an idle process; only BALANCED systems are kept and then perturbed",
